@@ -73,6 +73,8 @@ def gen_case(rng):
             if updater == "table" and rng.random() < 0.5:
                 table[new] = [rng.randrange(10 ** 9) for _ in range(r + 2)]
         case["alias"] = alias
+    if updater == "table" and rng.random() < 0.3:
+        case["custom_fallback"] = True   # refusals are also tried with a permissive user fallback
     if rng.random() < 0.25:
         case["name_subclass"] = True     # names also given as a str subclass with its own __str__
     if rng.random() < 0.3:
@@ -261,6 +263,15 @@ def in_process(case):
                     "before gives seed %r, a fresh updater gives %r"
                     % (n, case["seeds"][n], r, a.seed(), b.seed()))
     # refused updates change nothing
+    if case["updater"] == "table" and case.get("custom_fallback"):
+        # a user-written fallback that does not validate the replication number: the
+        # table updater itself must refuse a negative / ill-typed one
+        from pydsol.core.streams import StreamUpdater
+
+        class _Permissive(StreamUpdater):
+            def update_seed(self, stream_id, stream, replication_nr):
+                stream.set_seed(stream.original_seed() + 17 * int(replication_nr or 0))
+        upd.set_fallback_stream_updater(_Permissive())
     for bad in (-1, -5, 1.0, "1", None):
         for n in names:
             st = MersenneTwister(case["seeds"][n])
